@@ -2,7 +2,8 @@
   Props/C04All.lean — the module audited for C04: Props/C04.lean (shape, record sections), Props/C04Slider.lean
   (hit-object lines of all four kinds, the [HitObjects] block), Props/C04Timing.lean (the [TimingPoints] block),
   Props/C04File.lean + C04Toy.lean (all parts composed: `encoded_file_accepted`) and Props/C04Decoded.lean (the
-  `Decoded` invariant: every decoded map's record sections are representable). All in namespace `Rosu.C04`.
+  `Decoded` invariant: every decoded map's record sections are representable), Props/C04DecodedObjects.lean (the hit objects
+  of decoded maps are representable up to named residuals). All in namespace `Rosu.C04`.
 -/
 import RosuModel.Props.C04Slider
 import RosuModel.Props.C04Timing
@@ -11,3 +12,6 @@ import RosuModel.Props.C04Toy
 import RosuModel.Props.C04Decoded
 import RosuModel.Props.C04Ieee
 import RosuModel.Props.C04DecodedIeee
+import RosuModel.Props.C04DecodedObjects
+import RosuModel.Props.C04DecodedObjectsToy
+import RosuModel.Props.C04DecodedObjectsIeee
